@@ -15,6 +15,9 @@ use futures_core::Stream;
 
 /// members per history
 pub const G: usize = 3;
+/// std configuration: which wake-ups members produce (kit::World::opts): 4 = only between
+/// operations (fire phase), 7 = also from inside polls (self-wake, wake a sibling)
+pub static mut STD_OPTS: u8 = 4;
 
 pub struct Ref<K: Copy + PartialEq> {
     pub inserted: usize,
@@ -80,6 +83,22 @@ impl<K: Copy + PartialEq> Ref<K> {
     }
 }
 
+/// std configuration: the handles the harness keeps are *borrowed* pointers to the sub-wakers
+/// inside the group's `Vec<Waker>` (a clone would make an `Arc` count path dependent, see kit).
+/// `insert` / `reserve` may reallocate that vector, so the borrowed pointers are dropped: a
+/// member can be woken again once it has been polled again. (A real child holds a clone; the
+/// coverage lost is "wake through a waker obtained before the group grew".)
+fn forget_handles() {
+    if cfg!(feature = "std") {
+        let w = w();
+        let mut i = 0;
+        while i < G {
+            w.hkind[i] = H_NONE;
+            i += 1;
+        }
+    }
+}
+
 // -------------------------------------------------------------------------------------------
 // FutureGroup
 
@@ -131,10 +150,14 @@ pub fn run_future_group(steps: usize, keyed: bool, script: &[u8], force: [u16; G
     w().n = 0;
     // alloc configuration: wakers are the parent waker and readiness is constant, so wake-ups
     // carry no information; keep the members quiet (std harnesses switch this back on)
-    w().opts = if cfg!(feature = "std") { 3 } else { 0 };
+    w().opts = if cfg!(feature = "std") { unsafe { STD_OPTS } } else { 0 };
+    // std: members are re-polled only after one of their wakers fired (C16)
+    w().c16 = cfg!(feature = "std");
     w().force[0] = force[0];
     w().force[1] = force[1];
     w().force[2] = force[2];
+    // round of the most recent poll if it returned Pending (invariant W is asserted against it)
+    let mut pending_round: Option<usize> = None;
     let mut r: Ref<future_group::Key> = Ref::new();
     {
         // std: leaked at the end (see stubs::drop_slow_stub); otherwise dropped when the
@@ -142,8 +165,8 @@ pub fn run_future_group(steps: usize, keyed: bool, script: &[u8], force: [u16; G
         let mut plain = core::mem::ManuallyDrop::new(FutureGroup::<Fut>::new());
         let mut keyedg = core::mem::ManuallyDrop::new(FutureGroup::<Fut>::new().keyed());
         let mut round = 0usize;
-        let mut s = 0;
-        while s < steps {
+        assert!(steps <= 8);
+        crate::unroll_rounds!(s, steps, {
             let op = if s < script.len() && script[s] != 255 { script[s] & 3 } else { any_u8() };
             assume(op < 4);
             let target = if s < script.len() && script[s] != 255 { (script[s] >> 2) as usize } else { G };
@@ -154,6 +177,7 @@ pub fn run_future_group(steps: usize, keyed: bool, script: &[u8], force: [u16; G
                     let k = g.insert(Fut::new(id));
                     w().n = id + 1;
                     r.note_insert(id, k);
+                    forget_handles();
                 }
             } else if op == 1 {
                 let j = if target < G { target } else { any_u8() as usize };
@@ -167,6 +191,7 @@ pub fn run_future_group(steps: usize, keyed: bool, script: &[u8], force: [u16; G
                 let extra = if target < G { target } else { any_u8() as usize };
                 assume(extra <= 2);
                 g.reserve(extra);
+                forget_handles();
             } else if round < RMAX {
                 let wk = parent_waker(round);
                 let mut cx = Context::from_waker(&wk);
@@ -187,6 +212,7 @@ pub fn run_future_group(steps: usize, keyed: bool, script: &[u8], force: [u16; G
                 };
                 end_poll();
                 r.polls += 1;
+                let res_pending = res.is_pending();
                 match res {
                     Poll::Ready(Some((k, v))) => {
                         let id = v.id as usize;
@@ -220,15 +246,19 @@ pub fn run_future_group(steps: usize, keyed: bool, script: &[u8], force: [u16; G
                         assert_no_lost_wake(round, rel);
                     }
                 }
+                pending_round = if res_pending { Some(round) } else { None };
                 round += 1;
             }
             let g: &mut FutureGroup<Fut> = if keyed { &mut **keyedg } else { &mut *plain };
             fg_view(g, &r);
             if w().opts != 0 {
                 fire_phase();
+                if let Some(pr) = pending_round {
+                    let live = r.live;
+                    assert_no_lost_wake(pr, move |i: usize| i < G && live[i]);
+                }
             }
-            s += 1;
-        }
+        });
         cover!(r.polls >= 1 && r.inserted >= 1, "polled a non-trivial group");
         w().decided = true;
         if !cfg!(feature = "std") {
@@ -292,18 +322,20 @@ pub fn run_stream_group(steps: usize, keyed: bool, cap: usize, script: &[u8], fo
     w().n = 0;
     // alloc configuration: wakers are the parent waker and readiness is constant, so wake-ups
     // carry no information; keep the members quiet (std harnesses switch this back on)
-    w().opts = if cfg!(feature = "std") { 3 } else { 0 };
+    w().opts = if cfg!(feature = "std") { unsafe { STD_OPTS } } else { 0 };
+    w().c16 = cfg!(feature = "std");
     w().force[0] = force[0];
     w().force[1] = force[1];
     w().force[2] = force[2];
+    let mut pending_round: Option<usize> = None;
     let mut r: Ref<stream_group::Key> = Ref::new();
     {
         let mut plain = core::mem::ManuallyDrop::new(StreamGroup::<Strm>::new());
         let mut keyedg = core::mem::ManuallyDrop::new(StreamGroup::<Strm>::new().keyed());
         let mut round = 0usize;
-        let mut s = 0;
         let mut ended_same_poll = false;
-        while s < steps {
+        assert!(steps <= 8);
+        crate::unroll_rounds!(s, steps, {
             let op = if s < script.len() && script[s] != 255 { script[s] & 3 } else { any_u8() };
             assume(op < 4);
             let target = if s < script.len() && script[s] != 255 { (script[s] >> 2) as usize } else { G };
@@ -314,6 +346,7 @@ pub fn run_stream_group(steps: usize, keyed: bool, cap: usize, script: &[u8], fo
                     let k = g.insert(Strm::new(id, cap));
                     w().n = id + 1;
                     r.note_insert(id, k);
+                    forget_handles();
                 }
             } else if op == 1 {
                 let j = if target < G { target } else { any_u8() as usize };
@@ -327,6 +360,7 @@ pub fn run_stream_group(steps: usize, keyed: bool, cap: usize, script: &[u8], fo
                 let extra = if target < G { target } else { any_u8() as usize };
                 assume(extra <= 2);
                 g.reserve(extra);
+                forget_handles();
             } else if round < RMAX {
                 let wk = parent_waker(round);
                 let mut cx = Context::from_waker(&wk);
@@ -368,6 +402,7 @@ pub fn run_stream_group(steps: usize, keyed: bool, cap: usize, script: &[u8], fo
                 if ended_now >= 2 {
                     ended_same_poll = true;
                 }
+                let res_pending = res.is_pending();
                 match res {
                     Poll::Ready(Some((k, v))) => {
                         let id = v.id as usize;
@@ -409,15 +444,19 @@ pub fn run_stream_group(steps: usize, keyed: bool, cap: usize, script: &[u8], fo
                         assert_no_lost_wake(round, rel);
                     }
                 }
+                pending_round = if res_pending { Some(round) } else { None };
                 round += 1;
             }
             let g: &mut StreamGroup<Strm> = if keyed { &mut **keyedg } else { &mut *plain };
             sg_view(g, &r);
             if w().opts != 0 {
                 fire_phase();
+                if let Some(pr) = pending_round {
+                    let live = r.live;
+                    assert_no_lost_wake(pr, move |i: usize| i < G && live[i]);
+                }
             }
-            s += 1;
-        }
+        });
         cover!(r.polls >= 1 && r.inserted >= 1, "polled a non-trivial group");
         let _ = ended_same_poll;
         w().decided = true;
@@ -481,3 +520,22 @@ crate::proof!(sgroup_keyed_micro2, 8, { run_stream_group(2, true, 1, &[INS, POLL
 crate::proof!(sgroup_rem_then_poll, 8, { run_stream_group(4, false, 1, &[INS, INS, rem(0), POLL], FREE) });
 crate::proof!(sgroup_pending_then_any, 8, { run_stream_group(3, false, 1, &[INS, POLL, POLL], [P, 0, 0]) });
 crate::proof!(sgroup_keyed_item_then_any, 8, { run_stream_group(3, true, 2, &[INS, POLL, POLL], [R, 0, 0]) });
+
+// std configuration (quiet members: wake-ups between operations only, see STD_OPTS): the real
+// WakerVec / ReadinessVec / InlineWakerVec are in play, so C01 (invariant W, also after a
+// spurious poll with a fresh waker) and C16 (no poll without a wake) are decided for groups
+#[cfg(feature = "std")]
+mod std_proofs {
+    use super::*;
+    crate::proof!(fgroup_std_micro3, 8, { run_future_group(3, false, &[INS, POLL, POLL], FREE) });
+    crate::proof!(fgroup_std_micro4, 8, { run_future_group(4, false, &[INS, POLL, POLL, POLL], FREE) });
+    crate::proof!(fgroup_std_two, 8, { run_future_group(4, false, &[INS, INS, POLL, POLL], FREE) });
+    crate::proof!(fgroup_std_keyed_micro3, 8, { run_future_group(3, true, &[INS, POLL, POLL], FREE) });
+    crate::proof!(fgroup_std_remove, 8, { run_future_group(5, false, &[INS, INS, POLL, rem(0), POLL], [P, 0, 0]) });
+    crate::proof!(fgroup_std_grow_live, 8, { run_future_group(4, false, &[INS, POLL, INS, POLL], [P, 0, 0]) });
+    crate::proof!(fgroup_std_rsv_live, 8, { run_future_group(4, false, &[INS, POLL, rsv(1), POLL], [P, 0, 0]) });
+    crate::proof!(sgroup_std_micro3, 8, { run_stream_group(3, false, 1, &[INS, POLL, POLL], FREE) });
+    crate::proof!(sgroup_std_item_then_any, 8, { run_stream_group(3, false, 2, &[INS, POLL, POLL], [R, 0, 0]) });
+    crate::proof!(sgroup_std_two, 8, { run_stream_group(4, false, 1, &[INS, INS, POLL, POLL], FREE) });
+    crate::proof!(sgroup_std_grow_live, 8, { run_stream_group(4, false, 1, &[INS, POLL, INS, POLL], [P, 0, 0]) });
+}
